@@ -8,6 +8,8 @@ From Compio.Model Require Import Base DriverKeys.
 From Compio.Thm Require Import DriverKeysThm.
 From Compio.Model Require Import PollDrv.
 From Compio.Thm Require Import PollDrvThm.
+From Compio.Gen Require Frag.
+From Compio.Thm Require FragWakeThm.
 
 (* the cancel request goes through the same overflow loop as any entry:
    for every capacity >= 1 it is queued or submitted, never dropped *)
@@ -307,3 +309,16 @@ Theorem C05_poll_invariant_every_reachable_state : forall os,
   PollDrv.PInv (fold_left PollDrv.pstep os PollDrv.pinit).
 Proof. exact reachable_pinv. Qed.
 Print Assumptions C05_poll_invariant_every_reachable_state.
+
+(* ---- source tie (translated from the Rust source on every run by tools/rs2v.py
+        into gen/Frag.v; an edit of the function changes the generated definition) ---- *)
+(* Proactor::cancel_token (compio-driver/src/lib.rs): the guard in front of Driver::cancel, as the
+   source has it now (`key.set_cancelled() || key.has_result()`: set_cancelled reports whether the
+   operation had been cancelled before), lets the request through exactly when the operation was
+   neither cancelled before nor completed: cancelling twice or after completion never reaches the
+   driver, so it cannot turn a genuine result into ECANCELED *)
+Theorem C05_cancel_token_guard_is_source : forall was_cancelled has_result : bool,
+  Frag.cancel_token_skips was_cancelled has_result = (was_cancelled || has_result)%bool
+  /\ (Frag.cancel_token_skips was_cancelled has_result = false <-> was_cancelled = false /\ has_result = false).
+Proof. exact FragWakeThm.cancel_token_guard_tie. Qed.
+Print Assumptions C05_cancel_token_guard_is_source.
